@@ -162,6 +162,8 @@ class _ReadSourceGenerator:
 
             if self.align and field.offset is None:
                 yield f"stream.seek(-stream.tell() & ({field.alignment} - 1), {io.SEEK_CUR})"
+                # Aligned on the actual stream position, so the next field with a set offset has to be seeked to
+                current_offset = None
 
         for field in self.fields:
             field_type = field.type
